@@ -284,3 +284,147 @@ def guard_progress_obligations(ctx, modname, only_functions=None):
             if not ok:
                 failures.append((name, fn.name, loop.lineno, ast.unparse(loop.test)))
     return failures
+
+
+# ----------------------------------------------------------------------------- attribute-store closure of a method (constant-propagated)
+_UNK = object()
+
+
+def _cval(node, env):
+    if isinstance(node, ast.Constant):
+        return node.value
+    if isinstance(node, ast.Name) and node.id in env:
+        return env[node.id]
+    return _UNK
+
+
+def _decide_test(test, env):
+    if isinstance(test, ast.Compare) and len(test.ops) == 1:
+        l, r = _cval(test.left, env), _cval(test.comparators[0], env)
+        if l is not _UNK and r is not _UNK:
+            op = test.ops[0]
+            if isinstance(op, ast.Is):
+                return l is r
+            if isinstance(op, ast.IsNot):
+                return l is not r
+            if isinstance(op, ast.Eq):
+                return l == r
+            if isinstance(op, ast.NotEq):
+                return l != r
+        return None
+    if isinstance(test, ast.UnaryOp) and isinstance(test.op, ast.Not):
+        d = _decide_test(test.operand, env)
+        return None if d is None else (not d)
+    if isinstance(test, ast.Name):
+        v = _cval(test, env)
+        return None if v is _UNK else bool(v)
+    if isinstance(test, ast.BoolOp):
+        vals = [_decide_test(v, env) for v in test.values]
+        if isinstance(test.op, ast.And):
+            if any(v is False for v in vals):
+                return False
+            return True if all(v is True for v in vals) else None
+        if any(v is True for v in vals):
+            return True
+        return False if all(v is False for v in vals) else None
+    return None
+
+
+class MethodEffects(object):
+    """Which `self.<attr> = ...` stores are reachable from a method of a class, following calls of the
+    form self.<method>(...) inside the same class with constant propagation of the arguments passed
+    (a branch guarded by a parameter that the call site fixes to a constant is followed or pruned)."""
+
+    def __init__(self, modname, clsname):
+        self.mod = frontend.module(modname)
+        self.cls = self.mod.classes[clsname]
+        self.stores = []  # (attr, method, lineno, value source)
+        self.visited = set()
+
+    def analyse(self, method, env=None, depth=0):
+        fn = self.cls.methods.get(method)
+        if fn is None or depth > 8:
+            return
+        env = dict(env or {})
+        key = (method, tuple(sorted((k, repr(v)) for k, v in env.items() if v is not _UNK)))
+        if key in self.visited:
+            return
+        self.visited.add(key)
+        # parameters not fixed by the caller: defaults are NOT assumed (the public caller may pass anything)
+        body, _ = frontend.strip_docstring(fn)
+        self._block(body, env, method, depth)
+
+    def _bind(self, callee, call, env):
+        params = [a.arg for a in callee.args.args if a.arg != "self"]
+        nd = len(callee.args.defaults)
+        cenv = {}
+        allp = [a.arg for a in callee.args.args]
+        for i, p in enumerate(allp):
+            if p == "self":
+                continue
+            j = i - (len(allp) - nd)
+            cenv[p] = _cval(callee.args.defaults[j], {}) if j >= 0 else _UNK
+        for i, a in enumerate(call.args):
+            if i < len(params):
+                cenv[params[i]] = _cval(a, env)
+        for k in call.keywords:
+            if k.arg in cenv:
+                cenv[k.arg] = _cval(k.value, env)
+            elif k.arg is None:
+                for p in cenv:
+                    cenv[p] = _UNK
+        return cenv
+
+    def _block(self, stmts, env, method, depth):
+        for st in stmts:
+            if isinstance(st, ast.If):
+                d = _decide_test(st.test, env)
+                self._expr(st.test, env, method, depth)
+                if d is True:
+                    self._block(st.body, env, method, depth)
+                elif d is False:
+                    self._block(st.orelse, env, method, depth)
+                else:
+                    e1, e2 = dict(env), dict(env)
+                    self._block(st.body, e1, method, depth)
+                    self._block(st.orelse, e2, method, depth)
+                    for k in list(env):
+                        if e1.get(k, _UNK) is _UNK or e1.get(k, _UNK) != e2.get(k, _UNK):
+                            env[k] = _UNK
+                continue
+            if isinstance(st, (ast.For, ast.While)):
+                for n in ast.walk(st):
+                    if isinstance(n, (ast.Assign, ast.AugAssign)):
+                        for t in (n.targets if isinstance(n, ast.Assign) else [n.target]):
+                            for m in ast.walk(t):
+                                if isinstance(m, ast.Name):
+                                    env[m.id] = _UNK
+                self._block(st.body, env, method, depth)
+                continue
+            if isinstance(st, ast.Try):
+                self._block(st.body, env, method, depth)
+                for h in st.handlers:
+                    self._block(h.body, env, method, depth)
+                self._block(st.orelse, env, method, depth)
+                self._block(st.finalbody, env, method, depth)
+                continue
+            if isinstance(st, (ast.Assign, ast.AugAssign)):
+                val = st.value
+                self._expr(val, env, method, depth)
+                for t in (st.targets if isinstance(st, ast.Assign) else [st.target]):
+                    if isinstance(t, ast.Name):
+                        env[t.id] = _cval(val, env) if isinstance(st, ast.Assign) and isinstance(val, (ast.Constant, ast.Name)) else _UNK
+                    elif isinstance(t, ast.Attribute) and isinstance(t.value, ast.Name) and t.value.id == "self":
+                        self.stores.append((t.attr, method, st.lineno, ast.unparse(val)))
+                continue
+            for n in ast.iter_child_nodes(st):
+                if isinstance(n, ast.expr):
+                    self._expr(n, env, method, depth)
+
+    def _expr(self, e, env, method, depth):
+        for n in ast.walk(e):
+            if isinstance(n, ast.Call) and isinstance(n.func, ast.Attribute) and isinstance(n.func.value, ast.Name) and n.func.value.id == "self":
+                name = n.func.attr
+                callee = self.cls.methods.get(name)
+                if callee is not None:
+                    self.analyse(name, self._bind(callee, n, env), depth + 1)
